@@ -130,7 +130,9 @@ ARG_STYLE = [False]
 
 
 def gen_program(g, depth, defs, procs, counter, allow_stdin=True, allow_shell=True, target_tag='T'):
-    """Returns {'lines': [...], 'model': {...}}.  The innermost driver carries the target tag."""
+    """Returns a program *tree* {'k': driver kind, 'args': [...], 'stdin': {...}|None, 'sub': tree|None}; syntax lines,
+    symbol definitions and the flattened model are derived from it (materialize), so that a shrinking edit of the tree
+    keeps them in step."""
     kinds = ['sys', 'sys', 'python', 'exe', 'exe_rel'] + (['shell'] if allow_shell else []) + (['sym', 'sym', 'sym'] if depth > 0 else [])
     k = g.choice(kinds)
     return _program_of_kind(g, k, depth, defs, procs, counter, allow_stdin, allow_shell, target_tag)
@@ -140,18 +142,39 @@ def _program_of_kind(g, k, depth, defs, procs, counter, allow_stdin, allow_shell
     stdin = gen_stdin(g, procs, counter) if allow_stdin else None
     if k == 'sym':
         sub = gen_program(g, depth - 1, defs, procs, counter, allow_stdin, allow_shell, target_tag)
+        shell = _innermost(sub)['k'] == 'shell'
+        a = args if args is not None else gen_args(g, simple=shell or ARG_STYLE[0])
+        return {'k': 'sym', 'args': a, 'stdin': stdin, 'sub': sub}
+    a = args if args is not None else gen_args(g, simple=(k == 'shell') or ARG_STYLE[0])
+    if k == 'shell':
+        a = []
+    return {'k': k, 'args': a, 'stdin': stdin, 'sub': None}
+
+
+def _innermost(tree):
+    while tree.get('sub'):
+        tree = tree['sub']
+    return tree
+
+
+def materialize_tree(tree, defs, target_tag='T'):
+    """tree -> {'lines': [...], 'model': {...}}; appends the needed `def program` blocks to defs."""
+    stdin = tree.get('stdin')
+    k = tree['k']
+    if k == 'sym':
+        sub = materialize_tree(tree['sub'], defs, target_tag)
         sname = 'PROG%d' % len(defs)
         sl = sub['lines']
         defs.append(['def program %s = %s' % (sname, sl[0])] +
                     [l if _in_heredoc(sl, i) else '  ' + l for i, l in enumerate(sl[1:], 1)])
         sm = sub['model']
-        a = args if args is not None else gen_args(g, simple=sm['shell'] or ARG_STYLE[0])
+        a = tree['args'] if not sm['shell'] else [x for x in tree['args'] if x['kind'] in ('word', 'optionlike')]
         m = {'shell': sm['shell'], 'head': sm['head'], 'line': sm.get('line'), 'args': sm['args'] + a,
              'stdin': sm['stdin'] + ([stdin] if stdin else []), 'driver': sm['driver'], 'depth': sm['depth'] + 1,
              'use_symbol': sname, 'use_n_args': len(a), 'use_has_stdin': bool(stdin)}
         first = '@ %s %s' % (sname, ' '.join(x['syn'] for x in a))
     else:
-        a = args if args is not None else gen_args(g, simple=(k == 'shell') or ARG_STYLE[0])
+        a = tree['args']
         if k == 'sys':
             head, first = [target_tag], '%% %s' % target_tag
         elif k == 'python':
@@ -160,14 +183,11 @@ def _program_of_kind(g, k, depth, defs, procs, counter, allow_stdin, allow_shell
             head, first = ['$HOME/exe1', target_tag], 'exe1 %s' % target_tag
         elif k == 'exe_rel':
             head, first = ['$HOME/exe2', target_tag], '-rel-home exe2 %s' % target_tag
-        elif k == 'shell':
-            head = None
         if k == 'shell':
             line = '%s some "quoted text" | more $HOME' % target_tag
             m = {'shell': True, 'head': None, 'line': line, 'args': [], 'stdin': [stdin] if stdin else [], 'driver': k,
                  'depth': 0}
             first = '$ ' + line
-            a = []
         else:
             m = {'shell': False, 'head': head, 'line': None, 'args': a, 'stdin': [stdin] if stdin else [], 'driver': k,
                  'depth': 0}
@@ -176,6 +196,20 @@ def _program_of_kind(g, k, depth, defs, procs, counter, allow_stdin, allow_shell
     if stdin:
         lines.extend(stdin['syn'])
     return {'lines': lines, 'model': m}
+
+
+def materialized(plan):
+    """The plan with 'prog' ({'lines', 'model'}) and 'defs' derived from plan['tree']."""
+    if plan.get('kind') != 'denotation' or 'prog' in plan:
+        return plan
+    p2 = dict(plan)
+    defs = []
+    if plan.get('tree') is None:
+        p2['prog'] = {'lines': [], 'model': None}
+    else:
+        p2['prog'] = materialize_tree(plan['tree'], defs)
+    p2['defs'] = defs
+    return p2
 
 
 def total_runs(tier):
@@ -243,19 +277,20 @@ def build(seed, tier, g, place, driver, exit_code=None, sweep=False, capture=Fal
     allow_shell = pkind not in ('act_file_interpreter', 'act_source_interpreter')
     ARG_STYLE[0] = 'actor' if pkind in ('act_file_interpreter', 'act_source_interpreter') else False
     if pkind == 'act_null':
-        prog = {'lines': [], 'model': None}
+        tree = None
     elif driver is None and not allow_shell:
         # ACT-INTERPRETER: PATH | % STRING | -python (no symbol reference, no shell command)
-        prog = _program_of_kind(g, g.choice(['sys', 'python', 'exe', 'exe_rel']), 0, defs, procs, counter, False, False, 'T')
+        tree = _program_of_kind(g, g.choice(['sys', 'python', 'exe', 'exe_rel']), 0, defs, procs, counter, False, False, 'T')
     elif driver is None:
-        prog = gen_program(g, g.choice([0, 1, 2, 3]), defs, procs, counter, allow_stdin=not plain, allow_shell=allow_shell)
+        tree = gen_program(g, g.choice([0, 1, 2, 3]), defs, procs, counter, allow_stdin=not plain, allow_shell=allow_shell)
     else:
         if driver in ('shell', 'sym') and not allow_shell:
             driver = 'sys'
         fixed = [{'syn': 'a1', 'val': ['a1'], 'kind': 'word'}, {'syn': '"b c"', 'val': ['b c'], 'kind': 'soft'},
                  {'syn': '@[LST1]@', 'val': ['l1', 'l 2', 'l3'], 'kind': 'listref'}]
-        prog = _program_of_kind(g, driver, 1 if driver == 'sym' else 0, defs, procs, counter, not plain, allow_shell, 'T',
+        tree = _program_of_kind(g, driver, 1 if driver == 'sym' else 0, defs, procs, counter, not plain, allow_shell, 'T',
                                 args=None if driver in ('shell', 'sym') else fixed)
+    prog = materialize_tree(tree, []) if tree is not None else {'lines': [], 'model': None}
     code = exit_code if exit_code is not None else g.choice([0, 0, 0, 1, 2, 3, 127, 255])
     if pkind in ('file_stdout_from', 'file_stderr_from', 'stdout_from', 'stderr_from', 'transformer',
                  'stdout_equals_program', 'act_file_interpreter', 'act_source_interpreter') and exit_code is None:
@@ -281,7 +316,7 @@ def build(seed, tier, g, place, driver, exit_code=None, sweep=False, capture=Fal
                       pkind not in ('act_file_interpreter', 'act_source_interpreter'))
     plan = {'format': 1, 'property': PROPERTY, 'engine': 'c10', 'run_seed': seed, 'tier': tier, 'second_use': second_use,
             'knobs': {'mem_buff_size': g.choice([1, 5, 8192])}, 'entry': 'cli', 'kind': 'denotation',
-            'place': pkind, 'phase': ph, 'defs': defs, 'prog': prog, 'procs': procs, 'setup_stdin': setup_stdin,
+            'place': pkind, 'phase': ph, 'tree': tree, 'procs': procs, 'setup_stdin': setup_stdin,
             'cd': cd, 'transform': transform, 'capture': capture, 'sweep': sweep,
             'act_source': ['source line one', '  indented "two"'] if pkind == 'act_source_interpreter' else None,
             'act_file_args': "a1 'a 2'" if pkind == 'act_file_interpreter' else None}
@@ -291,6 +326,7 @@ def build(seed, tier, g, place, driver, exit_code=None, sweep=False, capture=Fal
 # ----------------------------------------------------------------------------- rendering
 
 def render(plan):
+    plan = materialized(plan)
     if plan['kind'] == 'policy':
         body = {ph: [] for ph in PHASES}
         body[plan['phase']].append(plan['text'])
@@ -433,6 +469,7 @@ def _heredoc(text):
 # ----------------------------------------------------------------------------- execute
 
 def execute(plan, scratch):
+    plan = materialized(plan)
     w = world_mod.World(os.path.join(scratch, 'w'))
     text = render(plan)
     w.write('home/t.case', text)
@@ -474,6 +511,7 @@ def _target_tag(s):
 
 
 def expected_spawn(plan):
+    plan = materialized(plan)
     m = plan['prog']['model']
     pk = plan['place']
     stdin = ''.join(p['val'] for p in m['stdin'])
@@ -501,6 +539,7 @@ def expected_spawn(plan):
 
 
 def oracle(plan, hist):
+    plan = materialized(plan)
     V = []
 
     def bad(rule, expected_, observed):
@@ -604,6 +643,7 @@ def oracle(plan, hist):
 
 
 def _probes(plan, hist):
+    plan = materialized(plan)
     pr = {}
     if plan['kind'] == 'policy':
         if plan['code'] not in (0, 'ENOENT') and not plan['ignore']:
@@ -656,6 +696,7 @@ def _probes(plan, hist):
 
 
 def signature(plan, hist):
+    plan = materialized(plan)
     if plan['kind'] == 'policy':
         return True, ('policy', plan['phase'], plan['form'], plan['code'])
     m = plan['prog']['model']
@@ -668,10 +709,45 @@ def signature(plan, hist):
 
 
 def sample_view(plan, hist):
+    plan = materialized(plan)
     return {'case_text': hist['text'], 'verdict': hist['result']['stdout'], 'exit': hist['result']['exit'],
             'expected_spawn': expected_spawn(plan) if plan['kind'] == 'denotation' and plan['prog']['model'] else None,
             'spawns': [{k: s[k] for k in ('tag', 'args', 'shell', 'stdin', 'cwd', 'exit')} for s in hist['spawns']]}
 
 
 def normalize(plan):
-    return None  # syntax and model are generated together: plans of this engine are not shrunk structurally
+    """Syntax, symbol definitions and model are all derived from plan['tree']: shrinking edits of the tree are safe."""
+    if plan.get('kind') != 'denotation':
+        return plan
+    plan.pop('prog', None)
+    plan.pop('defs', None)
+    t = plan.get('tree')
+    if t is None:
+        return plan if plan['place'] == 'act_null' else None
+    # every node keeps its keys; a 'sym' node needs its sub-program
+    def ok(n):
+        if not isinstance(n, dict) or 'k' not in n or 'args' not in n:
+            return False
+        n.setdefault('stdin', None)
+        n.setdefault('sub', None)
+        if n['k'] == 'sym':
+            return n['sub'] is not None and ok(n['sub'])
+        return n['sub'] is None
+    if not ok(t) or 'T' not in plan['procs']:
+        return None
+    for n in _nodes(t):
+        st = n.get('stdin')
+        if st and st.get('tag') and st['tag'] not in plan['procs']:
+            return None
+    m = materialize_tree(t, [])
+    if plan.get('transform') and len(m['lines']) != 1:
+        return None
+    if plan.get('second_use') and not (m['model'].get('use_symbol') and not m['model']['shell']):
+        plan['second_use'] = False
+    return plan
+
+
+def _nodes(t):
+    while t:
+        yield t
+        t = t.get('sub')
